@@ -2,7 +2,8 @@ SPEC = dict(
     id="C02",
     bin="c02",
     coq_dir="C02",
-    coq_targets=["C02/Proofs.vo", "C02/Examples.vo"],
+    coq_targets=["C02/Proofs.vo", "C02/IftProofs.vo", "C02/Examples.vo"],
+    props=["C02/Props.v", "C02/IftProps.v"],
     allowed_axioms=[],
     harness_timeout=2400,
     level_text=("Partial by design: totality of ~45 kLoC is not a theorem here. What is proved (Coq, unbounded, no axioms) is that each "
@@ -13,7 +14,12 @@ SPEC = dict(
                 "periodic descent (prefix P, period L) within 2(P/L+1)L <= 2(P+L) Enters; CallStack is total with depth in [0,32]; the "
                 "interpreter run loop performs at most MAX_RUN_INSTRUCTIONS+1 dispatches for EVERY instruction oracle, never panics, keeps the "
                 "call depth <= 32 and the loop-budget counters <= limit; composite loading needs at most limit+2 frames on EVERY component map "
-                "and reports RecursionLimitExceeded on maps without finite descent. The models are tied to the code on every run: ~2400 "
+                "and reports RecursionLimitExceeded on maps without finite descent. Round 2 (IFT patch-map decoding guards): the format-2 "
+                "entry loop never panics for EVERY sparse-bit-set decoder that returns no more data than it got, needs at most #bytes+1 turns whatever "
+                "entry_count says, and a success means exactly entry_count entries each consuming >= 1 byte, ids in u32 (i64 id arithmetic cannot overflow); "
+                "the format-1 feature-map record indexing (i + cumulative, index*field_width*2, first_new + i, entry_map_data[byte_index..]) never panics "
+                "when all indices are u16-representable, because the up-front entry_records_size check uses the same field_width — and full totality of that "
+                "path is REFUTED (u16 overflow panic reachable with a 40-byte table; finding). The models are tied to the code on every run: ~2400 "
                 "generated op sequences / crafted fpgm+prep programs (incl. two million-instruction runs that pin the +1 slack and the budget "
                 "formula through the reported pc) / composite graphs are executed on the real code and on the model (vm_compute). Everything "
                 "else of the property is TESTED only: an implementation-only totality search runs every public skrifa query, draw (sizes incl. "
@@ -29,11 +35,12 @@ SPEC = dict(
               "skrifa/src/outline/glyf/hint/value_stack.rs: every method of ValueStack",
               "skrifa/src/outline/glyf/hint/call_stack.rs: CallStack::{push,peek,pop,clear}",
               "skrifa/src/outline/glyf/hint/engine/dispatch.rs: Engine::run (MAX_RUN_INSTRUCTIONS); engine/mod.rs: LoopBudget; engine/control_flow.rs: do_jump; engine/definition.rs: op_call/op_loopcall/op_fdef/op_endf, do_def scan; hint/program.rs: enter/leave; hint/definition.rs: DefinitionMap::{allocate,get} (concrete oracle instance used by the shards)",
-              "skrifa/src/outline/glyf/mod.rs: Outlines::outline_rec / Scaler::load + load_composite recursion guard (GLYF_COMPOSITE_RECURSION_LIMIT)"],
+              "skrifa/src/outline/glyf/mod.rs: Outlines::outline_rec / Scaler::load + load_composite recursion guard (GLYF_COMPOSITE_RECURSION_LIMIT)",
+              "incremental-font-transfer/src/patchmap.rs: add_intersecting_format1_patches (intersect_format1_glyph_map_inner, intersect_format1_feature_map incl. field_width / entry_records_size / merge_intersecting_entries / is_entry_applied); decode_format2_entries, decode_format2_entry (EntryData field walk, child index / design space / id / patch format checks), compute_format2_new_entry_index, decode_format2_codepoints (sparse bit set = coq/C14 SbsModel.decode in the shards, arbitrary oracle in the theorems)"],
     not_covered=["ValueStack::copy_index/move_index as list operations (totality proved; list-level specification only checked by correspondence)",
                  "work bound of composite loading: the guard bounds depth, not the number of visits (exponential in fan-out: reported finding)",
                  "TrueType opcode bodies other than control flow, zone/point/CVT index checks, CFF charstring evaluator and hinter, autohinter, COLR traversal, metrics/charmap/string glue: totality search only",
-                 "memory carving alloc_slice (proved by C12), IFT patch map / glyph-keyed / table-keyed code (C18/C19): totality search only here",
+                 "memory carving alloc_slice (proved by C12): exhaustive buffer length x misalignment sweep only; IFT glyph-keyed / table-keyed patch application (C18), format-2 string ids, EntryIntersectionCache recursion (finding: unbounded), patch selection (C19): totality search only",
                  "inner scan loops of op_if/op_else/do_def (bounded by bytecode length): modelled only inside the concrete oracle (do_def), not stated as theorems"],
     assumptions=["Rust semantics in the overflow-checks + debug-assertions profile (usize arithmetic panics on overflow, slice indexing panics out of range, copy_within range checks)",
                  "slices have length <= isize::MAX (hypotheses `zlen store <= isize_max`, `vop_ok`)",
